@@ -224,7 +224,11 @@ func (w *Worker) ufInjective(name string, t *Term) {
 		if same.IsTrue() {
 			continue
 		}
-		pre := tc.Eq(tc.Extract(t, t.W-1, t.W-64), tc.Extract(o, o.W-1, o.W-64))
+		pw := 64
+		if t.W < pw {
+			pw = t.W
+		}
+		pre := tc.Eq(tc.Extract(t, t.W-1, t.W-pw), tc.Extract(o, o.W-1, o.W-pw))
 		w.assertSilently(tc.Implies(pre, same))
 	}
 	w.ufApps[name] = append(w.ufApps[name], t)
